@@ -500,7 +500,11 @@ def timezone_name(dt, version=LATEST_VER):
         return 'UTC'
 
     for olson_name, haystack_name in list(tz_rmap.items()):
-        if pytz.timezone(olson_name).utcoffset(dt_notz) == offset:
-            return haystack_name
+        try:
+            if pytz.timezone(olson_name).utcoffset(dt_notz) == offset:
+                return haystack_name
+        except pytz.InvalidTimeError:
+            # This local time is ambiguous or does not exist in that zone
+            continue
 
     raise ValueError('Unable to get timezone of %r' % dt)
